@@ -833,3 +833,59 @@ CONTROLS += [
     pos("doc comment inside the line not recorded by the trailing scan", ["C11"], ["R11.5"],
         (L, '''                if tok.value.endswith("\\n") and self._extract_comments([tok]) is None:''', '''                if not tok.value.endswith("\\n") or self._extract_comments([tok]) is None:''')),
 ]
+
+CONTROLS += [
+    pos("ctor recognition anchored at the first segment", ["C03"], ["R3.7"],
+        (P, '''                        state.class_decl.typename.segments[-1], "name", None''', '''                        state.class_decl.typename.segments[0], "name", None''')),
+    pos("destructor/ctor scope taken from the front of the qualified name", ["C03"], ["R3.7"],
+        (P, '''                if not is_class_block:
+                    # must be an instance of a class
+                    cls_name = getattr(dsegments[-2], "name", None)''', '''                if not is_class_block:
+                    # must be an instance of a class
+                    cls_name = getattr(dsegments[0], "name", None)''')),
+    pos("pcpp preprocessor object built once in the factory", ["C15"], ["R15.6"],
+        (PP, '''    def _preprocess_file(filename: str, content: typing.Optional[str]) -> str:
+        pp = _CustomPreprocessor(encoding, passthru_includes)
+        if include_paths:''', '''    pp = _CustomPreprocessor(encoding, passthru_includes)
+
+    def _preprocess_file(filename: str, content: typing.Optional[str]) -> str:
+        if include_paths:''')),
+    pos("gcc command line accumulated in the captured argument list", ["C15"], ["R15.6"],
+        (PP, '''        cmd = gcc_args + ["-w", "-E", "-C"]
+''', '''        cmd = gcc_args
+        cmd.extend(["-w", "-E", "-C"])
+'''),
+        (PP, '''        for p in include_paths:
+            cmd.append(f"-I{p}")
+        for d in defines:
+            cmd.append(f"-D{d.replace(' ', '=')}")
+
+        kwargs = {"encoding": encoding}''', '''        for p in include_paths:
+            gcc_args.append(f"-I{p}")
+        for d in defines:
+            cmd.append(f"-D{d.replace(' ', '=')}")
+
+        kwargs = {"encoding": encoding}''')),
+    neg("closure copies its captured list before extending it",
+        (PP, '''        cmd = gcc_args + ["-w", "-E", "-C"]
+''', '''        cmd = list(gcc_args)
+        cmd += ["-w", "-E", "-C"]
+''')),
+    pos("stdin default codec differs from the file default", ["C20"], ["R20.6"],
+        (S, '''    if encoding is None:
+        encoding = "utf-8-sig"
+
+    if filename == "-":''', '''    if filename == "-":'''),
+        (S, '''            content = stdin_bytes.read().decode(encoding)''', '''            content = stdin_bytes.read().decode(encoding or "utf-8")''')),
+    neg("default codec written as a conditional expression at the decode site",
+        (S, '''    if encoding is None:
+        encoding = "utf-8-sig"
+
+    if filename == "-":''', '''    if filename == "-":'''),
+        (S, '''            content = stdin_bytes.read().decode(encoding)''', '''            content = stdin_bytes.read().decode("utf-8-sig" if encoding is None else encoding)''')),
+    pos("#line offset computed from the already re-based line", ["C06", "C10", "C19"], ["R6.6", "R10.3", "R19.4"],
+        (L, '''            self.filename = m.group(3)
+            self.line_offset = 1 + self.lex.lineno - int(m.group(2))''', '''            lineno = self.current_location().lineno
+            self.filename = m.group(3)
+            self.line_offset = 1 + lineno - int(m.group(2))''')),
+]
